@@ -1801,6 +1801,30 @@ impl Cpu {
                     pc_increment = 0;
                 }
             }
+            RGTRU => {
+                if !(self.c_flag() || self.z_flag()) {
+                    self.r[R_PC] = self.stack_pop(bus)?;
+                    pc_increment = 0;
+                }
+            }
+            RLSSU => {
+                if self.c_flag() {
+                    self.r[R_PC] = self.stack_pop(bus)?;
+                    pc_increment = 0;
+                }
+            }
+            RVC => {
+                if !self.v_flag() {
+                    self.r[R_PC] = self.stack_pop(bus)?;
+                    pc_increment = 0;
+                }
+            }
+            RVS => {
+                if self.v_flag() {
+                    self.r[R_PC] = self.stack_pop(bus)?;
+                    pc_increment = 0;
+                }
+            }
             RSB => {
                 self.r[R_PC] = self.stack_pop(bus)?;
                 pc_increment = 0;
